@@ -24,6 +24,9 @@ use crate::span::SpanManager;
 mod c06;
 mod c07;
 mod radix;
+mod c17;
+mod c02;
+mod c04;
 
 pub(self) fn bare_program<'p>(arena: &'p Arena) -> Program<'p> {
     let str_interner = StrInterner::new();
@@ -104,6 +107,7 @@ macro_rules! eval_stubs {
         #[kani::stub(crate::arena::Arena::alloc_slice, crate::arena::Arena::kstub_alloc_slice)]
         #[kani::stub(crate::arena::Arena::alloc_str, crate::arena::Arena::kstub_alloc_str)]
         #[kani::stub(alloc::fmt::format, crate::kani_support::stub_fmt_format)]
+        #[kani::stub(core::fmt::write, crate::kani_support::stub_fmt_write_nothing)]
         #[kani::stub(f64::exp, crate::kani_support::stub_libm1)]
         #[kani::stub(f64::ln, crate::kani_support::stub_libm1)]
         #[kani::stub(f64::log2, crate::kani_support::stub_libm1)]
